@@ -186,13 +186,15 @@ func Gen(t *rapid.T) Plan {
 			n := rapid.IntRange(0, 3).Draw(t, "nmapped")
 			for j := 0; j < n; j++ {
 				in := genIn(t, []int{controller.InputQMapped, controller.InputQMappedDestroyReady}, "min")
-				if in.Typ == prim.Typ || conflicts(ps.Ins, in) {
+				// (a mapped input may sit on the primary's own type as long as the keys differ: kind-wide next to by-ID,
+				// or two different IDs; a change of such a resource concerns both inputs)
+				if conflicts(ps.Ins, in) {
 					continue
 				}
 
 				same := false
 
-				for _, e := range ps.Ins {
+				for _, e := range ps.Ins[1:] {
 					if e.Typ == in.Typ {
 						same = true // two mapped inputs of different kinds on one type: qruntime matches by type only
 					}
